@@ -370,6 +370,11 @@ def h_forms(ctx, typ, form):
   elif form == 'list': buf = list(vals); a = cls(buf)
   elif form == 'tuple': a = cls(tuple(vals))
   else: a = cls(ref)
+  if form in ('bytearray', 'list', 'tuple'):
+    # a buffer of another length is not an address of this type
+    for m in (n - 3, n + 1, 17):
+      seq = {'bytearray': bytearray, 'list': list, 'tuple': tuple}[form](vals[k % n] for k in range(m))
+      ctx.check('a %s of %d elements is rejected' % (form, m), raises(lambda: cls(seq), Exception))
   ctx.check('equal to the address built from bytes', a == ref and not (a != ref))
   ctx.check('prints alike', text(a) == text(ref))
   def h(x):
